@@ -387,7 +387,7 @@ pub fn run(ctx: &Ctx) -> Outcome {
     }
     let modes = [UNIFORM, IDENTITY, CONSTANT, SAMEBIN, SPLITTING, MIXED, HIGHBITS];
     // ---- A and B
-    let n_ab = ctx.q(40u64, 1500);
+    let n_ab = ctx.q(400u64, 4000);
     for i in 0..n_ab {
         if i % ctx.shards != ctx.shard {
             continue;
